@@ -124,14 +124,20 @@ class Repeat(Expression):
         gen.writeln("# <Repeat>")
 
         tmp_pairs = gen.new_temp("children")
-        trivia_pos = gen.new_temp("trivia_pos")
+        first = gen.new_temp("first")
 
-        gen.writeln(f"{trivia_pos} = state.pos")
+        gen.writeln(f"{first} = True")
         gen.writeln(f"{tmp_pairs}: list[Pair] = []")
 
         gen.writeln("while True:")
         with gen.block():
             gen.writeln("state.checkpoint()")
+            # Trivia between iterations belongs to the next iteration. If there
+            # is no next iteration, it is given back along with the checkpoint.
+            gen.writeln(f"if not {first}:")
+            with gen.block():
+                gen.writeln(f"skip_trivia(state, {tmp_pairs})")
+
             # Parse one item
             self.expression.generate(gen, matched_var, tmp_pairs)
 
@@ -141,15 +147,10 @@ class Repeat(Expression):
                 # Commit the item immediately
                 gen.writeln(f"{pairs_var}.extend({tmp_pairs})")
                 gen.writeln(f"{tmp_pairs}.clear()")
-                # Save pos before trivia
-                gen.writeln(f"{trivia_pos} = state.pos")
-                # Parse trivia after item
-                gen.writeln(f"skip_trivia(state, {tmp_pairs})")
+                gen.writeln(f"{first} = False")
             gen.writeln("else:")
             with gen.block():
-                # Restore checkpoint and also rewind trivia pos
                 gen.writeln("state.restore()")
-                gen.writeln(f"state.pos = {trivia_pos}")
                 # Always succeed
                 gen.writeln(f"{matched_var} = True")
                 gen.writeln("break")
